@@ -91,6 +91,9 @@ func (c *Ctx) Violation(clause, format string, args ...any) bool {
 		return true
 	}
 	detail := fmt.Sprintf(format, args...)
+	if len(detail) > 20000 {
+		detail = detail[:20000] + "…(truncated)"
+	}
 	if id := matchKnownFinding(c.Res.Prop, "oracle", clause, detail, c.Res.Case); id != "" {
 		if c.Res.KnownHits == nil {
 			c.Res.KnownHits = map[string]int{}
